@@ -939,9 +939,14 @@ func (x *c12Exec) stress() {
 	// end of the session: by the client or by the backend, while the others are busy
 	time.Sleep(time.Duration(500+rng.Intn(6000)) * time.Microsecond)
 	ender := "client-close"
-	if rng.Intn(2) == 0 {
+	if k := rng.Intn(4); k < 2 {
 		ender = "backend-close"
-		s.bc.closeNow()
+		if k == 0 {
+			ender = "backend-abrupt-close" // socket closed at once, possibly with a TCP reset
+			s.bc.closeAbruptly()
+		} else {
+			s.bc.closeNow()
+		}
 	} else {
 		a := x.call("close", "close(session under stress, final)", "", nil, shimIDBody(s.id))
 		omu.Lock()
@@ -951,7 +956,7 @@ func (x *c12Exec) stress() {
 	wg.Wait()
 	close(stopPump)
 	pumpWG.Wait()
-	if ender == "backend-close" { // polls must come to report the session closed
+	if ender != "client-close" { // polls must come to report the session closed
 		s.state = c12BClosed
 		s.tainted = true
 		s.sent = nil
@@ -994,7 +999,11 @@ func (x *c12Exec) stress() {
 	if !closedAt.IsZero() {
 		for _, o := range obs {
 			if o.own && o.a.Answered && o.a.Start.After(closedAt) && o.a.Status != 400 {
-				x.violate(fmt.Sprintf("C12:closed-session-answered-%d:%s", o.a.Status, o.action), fmt.Sprintf("stress (%d goroutines, %s): %s naming session %s started %s after %s and was answered %d", g, ender, o.action, s.id, o.a.Start.Sub(closedAt), closedBy, o.a.Status))
+				sig := fmt.Sprintf("C12:closed-session-answered-%d:%s", o.a.Status, o.action)
+				if o.a.Status == 200 {
+					sig = "C12:closed-session-accepted:" + o.action
+				}
+				x.violate(sig, fmt.Sprintf("stress (%d goroutines, %s): %s naming session %s started %s after %s and was answered %d", g, ender, o.action, s.id, o.a.Start.Sub(closedAt), closedBy, o.a.Status))
 			}
 		}
 		x.rejects(s, closedBy)
